@@ -179,41 +179,29 @@ theorem rotAxis_row_angle (u v : V3 α) (s c : α) (hu : u.dot u = 1) (ht : s * 
 
 /-! ## rigid motions -/
 
-/-- A map of points is a rigid motion when it is `p ↦ p @ R + t` for a proper rotation `R`. -/
-def Rigid (f : V3 α → V3 α) : Prop := ∃ (r : M3 α) (t : V3 α), r.IsRot ∧ ∀ p, f p = (p.mulM r).add t
-
-/-- "leave every interatomic distance … unchanged" -/
-theorem rigid_dist {f : V3 α → V3 α} (h : Rigid f) (p q : V3 α) : dist2 (f p) (f q) = dist2 p q := by
-  obtain ⟨r, t, hr, hf⟩ := h
-  rw [hf, hf, Molli.Lemmas.Geom.rigid_dist hr.1]
+/-- "leave every interatomic distance … unchanged": a rigid motion `p ↦ p @ R + t` (`R` a proper
+rotation; `Rigid` in `Molli.Lemmas.Geom`) preserves every squared distance. -/
+theorem rigid_dist {f : V3 α → V3 α} (h : Rigid f) (p q : V3 α) : dist2 (f p) (f q) = dist2 p q :=
+  h.dist p q
 
 /-- "… and every stereocentre's handedness": the signed volume spanned by a centre `p` and three
 substituents is unchanged (never mirrored). -/
 theorem rigid_chirality {f : V3 α → V3 α} (h : Rigid f) (p q r o : V3 α) :
-    triple (f p) (f q) (f r) (f o) = triple p q r o := by
-  obtain ⟨m, t, hm, hf⟩ := h
-  rw [hf, hf, hf, hf, rigid_triple hm.2]
+    triple (f p) (f q) (f r) (f o) = triple p q r o := h.triple p q r o
 
 /-- `translate(v)` -/
-theorem rigid_translate (v : V3 α) : Rigid (fun p => p.add v) :=
-  ⟨M3.one, v, isRot_one, fun p => by rw [mulM_one]⟩
+theorem rigid_translate (v : V3 α) : Rigid (fun p => p.add v) := Rigid.translate v
 
 /-- `transform(R)` / `rotate(R)` with a rotation matrix -/
-theorem rigid_transform (r : M3 α) (hr : r.IsRot) : Rigid (fun p => p.mulM r) :=
-  ⟨r, V3.zero, hr, fun p => by rw [Molli.Lemmas.Geom.add_zero]⟩
+theorem rigid_transform (r : M3 α) (hr : r.IsRot) : Rigid (fun p => p.mulM r) := Rigid.transform r hr
 
 /-- `translate(-o); transform(R); translate(o)` (the body of `rotate_dihedral`) -/
 theorem rigid_rotateAbout (o : V3 α) (r : M3 α) (hr : r.IsRot) : Rigid (rotateAbout o r) :=
-  ⟨r, o.sub (o.mulM r), hr, fun p => rotateAbout_eq o r p⟩
+  Rigid.rotateAbout o r hr
 
 /-- rigid motions compose (centre, then rotate, then shift: alignment) -/
-theorem rigid_comp {f g : V3 α → V3 α} (hf : Rigid f) (hg : Rigid g) : Rigid (fun p => g (f p)) := by
-  obtain ⟨r1, t1, h1, e1⟩ := hf
-  obtain ⟨r2, t2, h2, e2⟩ := hg
-  refine ⟨r1.mul r2, (t1.mulM r2).add t2, IsRot.mul h1 h2, fun p => ?_⟩
-  show g (f p) = _
-  rw [e2, e1, ← mulM_mul]
-  apply V3.eq_of <;> simp only [V3.add, V3.mulM] <;> ring
+theorem rigid_comp {f g : V3 α → V3 α} (hf : Rigid f) (hg : Rigid g) : Rigid (fun p => g (f p)) :=
+  hf.comp hg
 
 /-- Whole-geometry operations are the point map applied to every row. -/
 theorem translate_eq_map (coords : List (V3 α)) (v : V3 α) :
